@@ -22,7 +22,7 @@ Definition load_features (tb : list str) (ver : N) (f : fcase) : str :=
 
 Definition run_case10 (tb : list str) (c : case) (f : fcase) : otm :=
   let core := match run_case tb c with
-              | OL [load; _; f21; pc] => OL [load; f21; pc]
+              | OL [load; _] => load
               | o => o
               end in
   OL [core; OS (un (load_features tb (c_ver c) f))].
